@@ -263,7 +263,14 @@ def scenario_strategy():
     S = values.strategies()
     val = st.one_of(S.scalar, st.lists(S.scalar, max_size=3).map(lambda v: {"t": "list", "v": v}), S.nd(), S.partition,
                     st.sampled_from([{"exc": "ValueError", "msg": "m"}, {"exc": "TwoArgErr", "msg": "m"}]))
-    return st.builds(lambda v, t, c: {"scenario": {"value": v, "topology": t, "cache": c}, "point": None},
+    def fit(v, t):
+        # under a key override the keys of a partition become file names beneath the override key: a key with a lone
+        # surrogate cannot be one (the unchanged library raises UnicodeEncodeError on the very first call) - outside the domain
+        if t.startswith("override") and "t" in v and values.is_partition_desc(v):
+            return dict(v, v={"".join(ch if not 0xD800 <= ord(ch) <= 0xDFFF else "s" for ch in k): x for k, x in v["v"].items()})
+        return v
+
+    return st.builds(lambda v, t, c: {"scenario": {"value": fit(v, t), "topology": t, "cache": c}, "point": None},
                      val, st.sampled_from(["single", "twin", "chain", "override", "override-shared"]), st.booleans())
 
 
